@@ -114,3 +114,120 @@ def macos10_on_arm64(v) -> bool:
         return False
     # the mechanism: the arm64 branch ignores the 10.x target and emits only the universal2 tail
     return list(Platform.parse(plat).compatible_tags) == [f"macosx_10_{m}_universal2" for m in range(16, 3, -1)]
+
+
+# ---------------------------------------------------------------------------------------------------
+# marker layer
+# ---------------------------------------------------------------------------------------------------
+
+def _live_triplet(v):
+    live = v.get("_live") or {}
+    return live.get("operands"), live.get("result"), live.get("env"), live.get("combine")
+
+
+@predicate
+def interval_semantics_prerelease(v) -> bool:
+    """F12: the algebra works on intervals, evaluation applies PEP 440's pre/post/dev exclusion
+    rules.  Explained iff the environment holds a pre/dev/post release AND the mismatch vanishes
+    when version atoms are decided by interval membership."""
+    from . import altsem
+
+    live = v.get("_live") or {}
+    env = live.get("env")
+    if env is None or not altsem.has_prerelease_env(env):
+        return False
+    if "text" in live and "marker" in live:  # C03 text level: dep-logic's answer vs the unmerged text
+        return altsem.text_eval(live["text"], env, "interval") == altsem.obj_eval(live["marker"], env, "interval") \
+            and altsem.obj_eval(live["marker"], env, "interval") == altsem.text_eval(live["text"], env, "interval")
+    ops, res, env, comb = _live_triplet(v)
+    if ops is None or res is None or comb is None:
+        return False
+    return comb([altsem.obj_eval(o, env, "interval") for o in ops]) == altsem.obj_eval(res, env, "interval")
+
+
+@predicate
+def version_list_semantics(v) -> bool:
+    """F5: `python_version in / not in "3.10, 3.11"` is a substring test at evaluation (PEP 508) but a
+    version list in the specifier view used for merging.  Explained iff such an atom is involved,
+    the environment's python_version is a proper substring of the list text (not an element) AND the
+    mismatch vanishes when those atoms are decided as version lists."""
+    from . import altsem
+
+    live = v.get("_live") or {}
+    env = live.get("env")
+    if env is None:
+        return False
+    if "text" in live and "marker" in live:
+        from dep_logic.markers import _build_markers
+        from packaging.markers import Marker
+
+        atoms = []
+
+        def collect(ms):
+            for it in ms:
+                if isinstance(it, list):
+                    collect(it)
+                elif isinstance(it, tuple):
+                    atoms.append(_build_markers(it))
+        collect(Marker(live["text"])._markers)
+        py = [a for a in atoms if a.name == "python_version" and a.op in ("in", "not in") and not a.reversed]
+        if not py or not altsem.env_is_proper_substring_of_list(env, py):
+            return False
+        return altsem.text_eval(live["text"], env, "list") == altsem.obj_eval(live["marker"], env, "list")
+    ops, res, env, comb = _live_triplet(v)
+    if ops is None or res is None or comb is None:
+        return False
+    py = []
+    for o in list(ops) + [res]:
+        py += altsem.pyin_atoms(o)
+    if not py or not altsem.env_is_proper_substring_of_list(env, py):
+        return False
+    return comb([altsem.obj_eval(o, env, "list") for o in ops]) == altsem.obj_eval(res, env, "list")
+
+
+def _clear():
+    # the renamed case must be decided on its own, not against cache entries of the original
+    from .markermon import clear_caches
+
+    clear_caches()
+
+
+@predicate
+def reversed_in_atom(v) -> bool:
+    """F4: a literal-on-the-left `in` / `not in` atom on a string variable ("linux" in sys_platform) is
+    treated like its forward counterpart by the specifier view, by == and by every equality-keyed
+    cache, so it is merged/replaced wrongly.  Explained iff such an atom occurs in the case AND the
+    mismatch vanishes when that atom's variable is renamed to a fresh one carrying the same value
+    (which keeps the atom out of every same-variable merge and cache collision)."""
+    from . import altsem
+    from dep_logic.markers import parse_marker
+    from packaging.markers import Marker
+
+    live = v.get("_live") or {}
+    env = live.get("env")
+    case = v.get("case") or {}
+    if env is None:
+        return False
+    if v["property"] == "C03":
+        text = live.get("text") or case.get("text")
+        if not text:
+            return False
+        ren = altsem.rename_reversed_in([text], env)
+        if ren is None:
+            return False
+        (t2,), env2 = ren
+        _clear()
+        return bool(parse_marker(t2).evaluate(dict(env2))) == bool(Marker(t2).evaluate(dict(env2)))
+    tree = case.get("tree")
+    if not tree or tree[0] not in ("and", "or") or tree[1][0] != "m" or tree[2][0] != "m":
+        return False
+    ren = altsem.rename_reversed_in([tree[1][1], tree[2][1]], env)
+    if ren is None:
+        return False
+    (a2, b2), env2 = ren
+    _clear()
+    A, B = parse_marker(a2), parse_marker(b2)
+    R = (A & B) if tree[0] == "and" else (A | B)
+    va, vb = bool(A.evaluate(dict(env2))), bool(B.evaluate(dict(env2)))
+    exp = (va and vb) if tree[0] == "and" else (va or vb)
+    return bool(R.evaluate(dict(env2))) == exp
